@@ -14,6 +14,9 @@
           | (3 cap always stop enoent (op ...))     the world case with a fault injected at every
             call of the fault-free run in turn; reply: (fault-free-reply (reply-0 reply-1 ...))
           | (4 cap enoent (item ...))               same for the writer
+            (in forms 1-4 "enoent" is the flavour of the fault: 0 EIO, 1 ENOENT, 2 EOF = a failing
+             read raises EOFError instead of OSError)
+          | (5 case ...)                            several independent sessions, replies in a list
    item out := (key id gen)   gen = 1 for a decoded copy
    outcome  := () ok | (code ...) exception | (-1) unmodelled (tainted sorter)
    The host's sorted()/heapq are instantiated with "left-most minimal". *)
@@ -77,10 +80,11 @@ Definition dec_wop (s : sexp) : option wop :=
   | L [A 2] => Some (OpClose item)
   | _ => None
   end.
-Definition dec_fault (s : sexp) : option (option (nat * bool)) :=
+(* flavour of the fault: 0 EIO, 1 ENOENT, 2 "EOF" (a failing read raises EOFError, other calls EIO) *)
+Definition dec_fault (s : sexp) : option (option (nat * bool) * bool) :=
   match s with
-  | L [] => Some None
-  | L [A n; A e] => Some (Some (Z.to_nat n, negb (e =? 0)))
+  | L [] => Some (None, false)
+  | L [A n; A e] => Some (Some (Z.to_nat n, e =? 1), e =? 2)
   | _ => None
   end.
 
@@ -93,27 +97,27 @@ Definition enc_counts (w : world wire) : sexp :=
 Definition enc_log (w : world wire) : sexp := L (map (fun c => A (call_code c)) (rev (log wire w))).
 Definition enc_hit (w : world wire) : sexp := s_of_opt (fun c => A (call_code c)) (hit wire w).
 
-Definition run_world (c : nat) (al stop : bool) (f : option (nat * bool)) (ops : list wop) : sexp :=
-  let '(obs, cl, w) := w_workload item Z wire item_key Z.ltb item_enc item_dec leftmost_min c al stop ops f in
+Definition run_world (c : nat) (al stop : bool) (f : option (nat * bool)) (eof : bool) (ops : list wop) : sexp :=
+  let '(obs, cl, w) := w_workload item Z wire item_key Z.ltb item_enc item_dec leftmost_min eof c al stop ops f in
   L [s_of_list enc_obs obs; s_of_list enc_exn_opt cl; enc_counts w; enc_log w; enc_hit w].
 
-Definition run_writer (c : nat) (f : option (nat * bool)) (xs : list item) : sexp :=
-  let '(ao, co, wr, w) := wr_workload item Z wire item_key Z.ltb item_enc item_dec leftmost_min c xs f in
+Definition run_writer (c : nat) (f : option (nat * bool)) (eof : bool) (xs : list item) : sexp :=
+  let '(ao, co, wr, w) := wr_workload item Z wire item_key Z.ltb item_enc item_dec leftmost_min eof c xs f in
   L [s_of_list enc_outcome ao; s_of_list enc_outcome co; s_of_list enc_item (wout item Z wire wr);
      s_of_bool (whclosed item Z wire wr); enc_counts w; enc_log w; enc_hit w].
 
 (* a fault at every call of the fault-free run, in turn *)
-Definition sweep_world (c : nat) (al stop eno : bool) (ops : list wop) : sexp :=
-  let '(_, _, w) := w_workload item Z wire item_key Z.ltb item_enc item_dec leftmost_min c al stop ops None in
-  L [run_world c al stop None ops;
-     L (map (fun i => run_world c al stop (Some (i, eno)) ops) (seq 0 (length (log wire w))))].
+Definition sweep_world (c : nat) (al stop : bool) (fl : Z) (ops : list wop) : sexp :=
+  let '(_, _, w) := w_workload item Z wire item_key Z.ltb item_enc item_dec leftmost_min false c al stop ops None in
+  L [run_world c al stop None false ops;
+     L (map (fun i => run_world c al stop (Some (i, fl =? 1)) (fl =? 2) ops) (seq 0 (length (log wire w))))].
 
-Definition sweep_writer (c : nat) (eno : bool) (xs : list item) : sexp :=
-  let '(_, _, _, w) := wr_workload item Z wire item_key Z.ltb item_enc item_dec leftmost_min c xs None in
-  L [run_writer c None xs;
-     L (map (fun i => run_writer c (Some (i, eno)) xs) (seq 0 (length (log wire w))))].
+Definition sweep_writer (c : nat) (fl : Z) (xs : list item) : sexp :=
+  let '(_, _, _, w) := wr_workload item Z wire item_key Z.ltb item_enc item_dec leftmost_min false c xs None in
+  L [run_writer c None false xs;
+     L (map (fun i => run_writer c (Some (i, fl =? 1)) (fl =? 2) xs) (seq 0 (length (log wire w))))].
 
-Definition dispatch (s : sexp) : sexp :=
+Definition dispatch1 (s : sexp) : sexp :=
   match s with
   | L [A 0; A c; A al; ops] =>
       match as_listof dec_pop ops with
@@ -122,23 +126,30 @@ Definition dispatch (s : sexp) : sexp :=
       end
   | L [A 1; A c; A al; A st; f; ops] =>
       match dec_fault f, as_listof dec_wop ops with
-      | Some f', Some l => run_world (Z.to_nat c) (negb (al =? 0)) (negb (st =? 0)) f' l
+      | Some (f', ef), Some l => run_world (Z.to_nat c) (negb (al =? 0)) (negb (st =? 0)) f' ef l
       | _, _ => s_bad
       end
   | L [A 2; A c; f; xs] =>
       match dec_fault f, as_listof dec_item xs with
-      | Some f', Some l => run_writer (Z.to_nat c) f' l
+      | Some (f', ef), Some l => run_writer (Z.to_nat c) f' ef l
       | _, _ => s_bad
       end
   | L [A 3; A c; A al; A st; A eno; ops] =>
       match as_listof dec_wop ops with
-      | Some l => sweep_world (Z.to_nat c) (negb (al =? 0)) (negb (st =? 0)) (negb (eno =? 0)) l
+      | Some l => sweep_world (Z.to_nat c) (negb (al =? 0)) (negb (st =? 0)) eno l
       | None => s_bad
       end
   | L [A 4; A c; A eno; xs] =>
       match as_listof dec_item xs with
-      | Some l => sweep_writer (Z.to_nat c) (negb (eno =? 0)) l
+      | Some l => sweep_writer (Z.to_nat c) eno l
       | None => s_bad
       end
   | _ => s_bad
+  end.
+
+(* (5 case ...): several independent sorter sessions of one process, one reply each *)
+Definition dispatch (s : sexp) : sexp :=
+  match s with
+  | L (A 5 :: subs) => L (map dispatch1 subs)
+  | _ => dispatch1 s
   end.
